@@ -673,8 +673,9 @@ func (env *ExprEnv) fieldOf(x TV, name string) TV {
 					fail("heap access in pure context")
 				}
 				if _, isS := f.Type().Underlying().(*types.Struct); isS {
-					// value of embedded struct: assemble; but keep address for further selection
-					return TV{T: v.loadStruct(env.heapNow(), f.Type(), v.subRef(st, i, x.T)), Ty: f.Type(), Sort: v.sortOf(f.Type())}
+					// struct-typed field reached through a pointer: its address (so that
+					// x.f.g and ghost fields of f resolve through the heap); use *x.f for the value
+					return TV{T: v.subRef(st, i, x.T), Ty: types.NewPointer(f.Type()), Sort: "Int"}
 				}
 				return env.typed(v.loadField(env.heapNow(), st, i, x.T), f.Type())
 			}
@@ -819,6 +820,9 @@ func (v *FV) mapArrays(m *types.Map) (dom, val string) {
 	val = "MV_" + mangle(ks) + "_" + mangle(vs)
 	v.regArray(dom, fmt.Sprintf("(Array Int (Array %s Bool))", ks))
 	v.regArray(val, fmt.Sprintf("(Array Int (Array %s %s))", ks, vs))
+	if v.isRefLike(m.Elem()) {
+		v.refArrays[val] = true
+	}
 	return
 }
 
@@ -1147,6 +1151,63 @@ func (env *ExprEnv) call(e *ast.CallExpr) TV {
 		k := env.coerce(env.eval(e.Args[1]), mt.Key(), v.sortOf(mt.Key()))
 		dom, _ := v.mapArrays(mt)
 		return TV{T: fmt.Sprintf("(select (select %s %s) %s)", v.heapGet(env.heapNow(), dom), m.T, k.T), Ty: types.Typ[types.Bool], Sort: "Bool"}
+	case "cast":
+		// cast(x, "T"): reinterpret a reference (interface value) as type T. Trusted:
+		// used for views of interfaces with a single production implementation.
+		x := env.eval(e.Args[0])
+		lit, ok := e.Args[1].(*ast.BasicLit)
+		if !ok {
+			fail("cast needs a string literal type")
+		}
+		ts, _ := strconv.Unquote(lit.Value)
+		ty := v.parseType(ts, env.pkg)
+		if ty == nil {
+			fail("cast: unknown type %s", ts)
+		}
+		if x.Sort != "Int" || v.sortOf(ty) != "Int" {
+			fail("cast between non-reference sorts")
+		}
+		return TV{T: x.T, Ty: ty, Sort: "Int"}
+	case "contents":
+		// contents(s): the backing array of slice s as a pure array (meaningful when offset(s) == 0)
+		x := env.eval(e.Args[0])
+		if x.Sort != "Slice" {
+			fail("contents of non-slice")
+		}
+		sl := x.Ty.Underlying().(*types.Slice)
+		arr := v.elemArray(sl.Elem())
+		if env.heapNow() == nil {
+			fail("heap access in pure context")
+		}
+		return TV{T: fmt.Sprintf("(select %s (sl_arr %s))", v.heapGet(env.heapNow(), arr), x.T), Ty: types.NewMap(types.Typ[types.Int], sl.Elem()), Sort: fmt.Sprintf("(Array %s %s)", v.idx(), v.sortOf(sl.Elem()))}
+	case "offset":
+		x := env.eval(e.Args[0])
+		if x.Sort != "Slice" {
+			fail("offset of non-slice")
+		}
+		return TV{T: fmt.Sprintf("(sl_off %s)", x.T), Ty: types.Typ[types.Int], Sort: v.idx()}
+	case "owns":
+		// owns(o, s): the backing array of slice s belongs to object o (distinct owners have distinct arrays)
+		o := env.eval(e.Args[0])
+		x := env.eval(e.Args[1])
+		v.pre("slice_owner", "(declare-fun slice_owner (Int) Int)")
+		if x.Sort == "Int" && o.Sort == "Int" {
+			// map (or other reference) owned by o
+			return TV{T: fmt.Sprintf("(= (slice_owner %s) %s)", x.T, o.T), Ty: types.Typ[types.Bool], Sort: "Bool"}
+		}
+		if x.Sort != "Slice" || o.Sort != "Int" {
+			fail("owns(object, slice|map)")
+		}
+		return TV{T: fmt.Sprintf("(= (slice_owner (sl_arr %s)) %s)", x.T, o.T), Ty: types.Typ[types.Bool], Sort: "Bool"}
+	case "visited":
+		m := env.eval(e.Args[0])
+		mt, ok := m.Ty.Underlying().(*types.Map)
+		if !ok || m.Sort != "Int" {
+			fail("visited() on non-map")
+		}
+		k := env.coerce(env.eval(e.Args[1]), mt.Key(), v.sortOf(mt.Key()))
+		rv := v.rangeVisitedArray(mt)
+		return TV{T: fmt.Sprintf("(select (select %s %s) %s)", v.heapGet(env.heapNow(), rv), m.T, k.T), Ty: types.Typ[types.Bool], Sort: "Bool"}
 	case "fresh":
 		x := env.eval(e.Args[0])
 		return TV{T: fmt.Sprintf("(> %s %s)", x.T, v.n0), Ty: types.Typ[types.Bool], Sort: "Bool"}
@@ -1164,8 +1225,18 @@ func (env *ExprEnv) call(e *ast.CallExpr) TV {
 		}
 		return TV{T: fmt.Sprintf("(= (dyn_type %s) %s)", x.T, v.typeID(ty)), Ty: types.Typ[types.Bool], Sort: "Bool"}
 	}
-	// pure / uf
+	// pure / uf (optionally package-qualified: page.get64)
+	if i := strings.LastIndex(fname, "."); i > 0 {
+		if _, ok := v.eng.db.Pure[fname[i+1:]]; ok {
+			if _, isVar := env.vars[fname[:i]]; !isVar {
+				fname = fname[i+1:]
+			}
+		}
+	}
 	if p, ok := v.eng.db.Pure[fname]; ok {
+		if p.Macro {
+			return env.callMacro(p, e.Args)
+		}
 		return env.callPure(p, e.Args)
 	}
 	// conversion?
@@ -1339,6 +1410,18 @@ func (v *FV) declPure(p *PureFn) string {
 		fail("pure %s: unknown result type %s", p.Name, p.Ret)
 	}
 	rs := v.ghostSort(rt)
+	hidden := false
+	if v.con != nil {
+		for _, o := range v.con.Opaque2 {
+			if o == p.Name {
+				hidden = true
+			}
+		}
+	}
+	if hidden {
+		v.preamble = append(v.preamble, fmt.Sprintf("(declare-fun %s (%s) %s)", name, strings.Join(sorts, " "), rs))
+		return name
+	}
 	if p.Body == "" {
 		v.preamble = append(v.preamble, fmt.Sprintf("(declare-fun %s (%s) %s)", name, strings.Join(sorts, " "), rs))
 		v.trusted["uninterpreted spec function "+p.Name] = true
@@ -1357,4 +1440,36 @@ func (v *FV) declPure(p *PureFn) string {
 		v.preamble = append(v.preamble, fmt.Sprintf("(define-fun %s (%s) %s %s)", name, strings.Join(ps, " "), rs, b.T))
 	}
 	return name
+}
+
+// callMacro expands a heap-dependent predicate at the use site (same heap, same old()).
+func (env *ExprEnv) callMacro(p *PureFn, args []ast.Expr) TV {
+	v := env.v
+	if len(args) != len(p.Params) {
+		fail("%s expects %d arguments", p.Name, len(p.Params))
+	}
+	ppkg := v.pkgOf(p.Pkg)
+	if ppkg == nil {
+		ppkg = env.pkg
+	}
+	vars := map[string]TV{}
+	for i, a := range args {
+		pt := v.parseType(p.Params[i].Type, ppkg)
+		if pt == nil {
+			fail("predicate %s: unknown parameter type %s", p.Name, p.Params[i].Type)
+		}
+		x := env.coerce(env.eval(a), pt, v.ghostSort(pt))
+		vars[p.Params[i].Name] = TV{T: x.T, Ty: pt, Sort: x.Sort}
+	}
+	sub := &ExprEnv{v: v, vars: vars, snap: env.snap, old: env.old, inOld: env.inOld, pkg: ppkg, reach: env.reach, what: "predicate " + p.Name}
+	ex, err := parseContractExpr(p.Body)
+	if err != nil {
+		fail("predicate %s: %v", p.Name, err)
+	}
+	rt := v.parseType(p.Ret, ppkg)
+	r := sub.eval(ex)
+	if rt != nil {
+		r = sub.coerce(r, rt, v.ghostSort(rt))
+	}
+	return r
 }
